@@ -97,7 +97,7 @@ func init() {
 			}
 		}})
 
-	register(&Rule{ID: "C01.pair.delegate", Props: []string{"C01"}, Floor: 5,
+	register(&Rule{ID: "C01.pair.delegate", Props: []string{"C01", "C04"}, Floor: 5,
 		Doc: "Delegate: amount received == amount added to TotalTokens of the asset of that denom; persisted on every success path",
 		Run: func(e *Engine, r *RuleRun) {
 			fn := r.Need("keeper.Keeper.Delegate")
@@ -246,10 +246,10 @@ func init() {
 			if setq != nil {
 				// every path to the bucket write passes a store that puts one of the literals into the bucket variable
 				// (the variable is identified by its role: it is what setQueuedUndelegations is given)
-				var bucketAlloc *ssa.Alloc
+				var bucketAllocs map[*ssa.Alloc]bool
 				if args := setq.Common().Args; len(args) > 0 {
 					if u, ok := args[len(args)-1].(*ssa.UnOp); ok && u.Op == token.MUL {
-						bucketAlloc, _ = rootAlloc(u.X)
+						bucketAllocs = rootAllocSet(u.X)
 					}
 				}
 				var puts []ssa.Instruction
@@ -260,7 +260,7 @@ func init() {
 							for _, a := range lits {
 								if v.Contains(qa.Term(a)) {
 									if root, _, _ := qa.addrPath(st.Addr); strings.HasPrefix(root, "alloc#") {
-										if al, ok := rootAlloc(st.Addr); ok && al == bucketAlloc {
+										if al, ok := rootAlloc(st.Addr); ok && bucketAllocs[al] {
 											puts = append(puts, st)
 										}
 									}
@@ -275,7 +275,7 @@ func init() {
 					r.OK(qk, "entry added before bucket write", "every path to setQueuedUndelegations passes a store that adds the entry literal to the bucket", r.P(setq))
 				}
 				bucket := argT(qa, setq, 3)
-				r.Check(strings.Contains(bucket.String(), "mem<") || bucket.Op == "override" || bucket.Op == "out", qk, "bucket written is the local bucket", "the bucket variable is written", "unexpected bucket argument "+bucket.String(), r.P(setq))
+				r.Check(strings.Contains(bucket.String(), "mem<") || bucket.Op == "override" || bucket.Op == "out" || len(bucketAllocs) > 1, qk, "bucket written is the local bucket", "the bucket variable is written", "unexpected bucket argument "+bucket.String(), r.P(setq))
 				r.Check(argT(qa, setq, 2).Op == "param", qk, "bucket keyed by delegator", "bucket key uses the delegator parameter", "bucket key delegator is "+argT(qa, setq, 2).String(), r.P(setq))
 				if trail := qa.MustFollow(q.Blocks[0].Instrs[0], []ssa.Instruction{setq}); trail != nil {
 					r.Bad(qk, "bucket written on every success path", "queueUndelegation can return success without writing the bucket", trail)
@@ -616,6 +616,41 @@ func rootAlloc(v ssa.Value) (*ssa.Alloc, bool) {
 			return nil, false
 		}
 	}
+}
+
+// rootAllocSet: the local cells an address may be rooted in when the pointer is a local that is given a fresh
+// allocation in each branch (`var q *T; if .. { q = &T{..} } else { q = new(T); .. }`): the phi's leaves, all of which
+// must be allocations of the function.
+func rootAllocSet(v ssa.Value) map[*ssa.Alloc]bool {
+	out := map[*ssa.Alloc]bool{}
+	seen := map[ssa.Value]bool{}
+	ok := true
+	var walk func(v ssa.Value)
+	walk = func(v ssa.Value) {
+		if seen[v] {
+			return
+		}
+		seen[v] = true
+		switch x := v.(type) {
+		case *ssa.FieldAddr:
+			walk(x.X)
+		case *ssa.IndexAddr:
+			walk(x.X)
+		case *ssa.Alloc:
+			out[x] = true
+		case *ssa.Phi:
+			for _, ed := range x.Edges {
+				walk(ed)
+			}
+		default:
+			ok = false
+		}
+	}
+	walk(v)
+	if !ok {
+		return nil
+	}
+	return out
 }
 
 // firstUnmarshalInto: the (Must)Unmarshal call that decodes into alloc a.
